@@ -299,6 +299,7 @@ func C03(c *Ctx) {
 	// ---- f
 	c03Layout(c, root)
 	c03Speculation(c, root)
+	c03RecoveryMarkerNotLayout(c, root)
 	// ---- d
 	c03Operators(c, g)
 	// ---- c
@@ -848,10 +849,28 @@ func flagMapping(c *Ctx, g *load.G, rule string) {
 			forms := map[string]bool{`strings.HasSuffix(` + T + `,"i")`: true, "len(" + T + ")>0&&" + T + "[len(" + T + ")-1]=='i'": true, `res1(strings.CutSuffix(` + T + `,"i"))`: true}
 			okAll := true
 			for _, p := range c.pkgNorm("bootstrap").normPaths(fd) {
-				for _, e := range p {
+				for i, e := range p {
 					if e.Kind == "set" && strings.Contains(e.Text, ".IgnoreCase=") {
 						nStores++
 						v := e.Text[strings.Index(e.Text, ".IgnoreCase=")+len(".IgnoreCase="):]
+						// a flag carried in a local (the named result of a helper that takes the suffix off): on this path
+						// it holds true exactly where the suffix test succeeded, false (or its zero value) where it failed
+						if dollarRe.FindString(v) == v && v != "" {
+							if d, k := lastSet(p[:i], v); k >= 0 {
+								v = d
+							}
+						}
+						if v == "true" || v == "false" || v == "zero" {
+							agrees := false
+							for f := range forms {
+								if v == "true" && p[:i].holds(f) || v != "true" && p[:i].holds("!"+f) {
+									agrees = true
+								}
+							}
+							if agrees {
+								continue
+							}
+						}
 						if !forms[v] {
 							okAll = false
 							detail = v
